@@ -22,6 +22,9 @@ _PTS = [0.7310585786300049, 1.3591409142295225, -0.4142135623730951, 2.236067977
         1.7724538509055159, -0.6931471805599453]
 
 
+EXACT_TRANSFORMS = False     # C19's children set it: function values of a transform are compared bit for bit
+
+
 def _r12(x):
     try:
         c = complex(x)
@@ -60,7 +63,11 @@ def snap_value(v):
             for rank, i in enumerate(order):
                 args[i] = _PTS[(rank + shift) % len(_PTS)]
             try:
-                vals.append(_r12(v.func(*args)))
+                r_ = v.func(*args)
+                vals.append(_r12(r_))
+                if EXACT_TRANSFORMS:
+                    c_ = complex(r_)
+                    vals.append([c_.real.hex(), c_.imag.hex()])
             except ZeroDivisionError:
                 vals.append("pole")
             except Exception as e:      # a transform whose parts no longer fit together (edited object)
